@@ -52,7 +52,14 @@ pub trait Record {
     fn variant_span(&self, header: &Header) -> io::Result<usize> {
         let start = self.variant_start().transpose()?.unwrap_or(Position::MIN);
         let end = self.variant_end(header)?;
-        Ok(usize::from(end) - usize::from(start) + 1)
+
+        // The END INFO field is (file) input and may be before the start position.
+        usize::from(end)
+            .checked_sub(usize::from(start))
+            .and_then(|n| n.checked_add(1))
+            .ok_or_else(|| {
+                io::Error::new(io::ErrorKind::InvalidData, "invalid variant span: end < start")
+            })
     }
 
     /// Resolves the variant end position.
